@@ -334,7 +334,7 @@ def load_findings():
 
 def match_finding(findings, pid, sig):
     for f in findings:
-        if f.get('status') == 'open' and f['property'] == pid and f['signature'] == sig:
+        if f.get('status') == 'open' and (f['property'] == pid or pid in f.get('also_properties', [])) and f['signature'] == sig:
             return f
     return None
 
